@@ -323,6 +323,9 @@ def pm_cases(draw):
         xs = [v] * draw(st.integers(2, 9))
         if draw(st.booleans()):
             xs[-1] = v + 1e-9
+    if xs and draw(st.integers(0, 5)) == 0:
+        # values that are tiny but not zero stay in when zeros are removed
+        xs = [draw(st.sampled_from([2.5e-7, -3e-7, 1e-9])) if (v == 0 and i % 2 == 0) or i == 0 else v for i, v in enumerate(xs)]
     if xs and draw(st.integers(0, 4)) == 0:
         # values below zero (semitones re a reference, z-scores): "values of zero are removed" removes zeros, nothing else
         xs = [(-v if i % 2 else v) for i, v in enumerate(xs)]
@@ -349,6 +352,10 @@ def load_cases(draw):
     cell = st.one_of(st.none(), VALS.map(float), VALS.map(float), VALS.map(float),
                      st.sampled_from([1e-05, 3.0517578125e-05, 2.5e+20, -4e-07, 1e+16]))
     rows = [[round(0.01 * i, 2)] + [draw(cell) for _ in range(ncol)] for i in range(n)]
+    if rows and draw(st.integers(0, 3)) == 0:
+        # the same line twice (a sample repeated at a seam, a constant stretch with a repeated time): two rows
+        k = draw(st.integers(0, len(rows) - 1))
+        rows.insert(draw(st.integers(k, len(rows))), list(rows[k]))
     return {"rows": rows, "header": draw(st.booleans()), "undefined_value": draw(st.sampled_from([None, None, 0.0, -1.0, 0])),
             "blank_lines": draw(st.booleans()), "trailing_newline": draw(st.booleans())}
 
